@@ -89,7 +89,7 @@ Layout(lead, pre, fill, e, f, split, echo) ==
       stmtLine == Len(head) + 1
       faultLine == IF f[5] /\ Len(st) = 2 THEN stmtLine + 1 ELSE stmtLine
   IN [lines |-> head \o st \o Close(e) \o <<"end">>, fault |-> faultLine, stmt |-> stmtLine,
-      class |-> f[1], always |-> f[2], encl |-> e, split |-> split, echo |-> echo]
+      class |-> f[1], always |-> f[2], encl |-> e, split |-> split, echo |-> echo, pad |-> 0]
 
 \* a fault inside a condition: the condition on the statement's line or on the next one
 CondLayout(lead, pre, fill, kind, c, split, echo) ==
@@ -102,16 +102,25 @@ CondLayout(lead, pre, fill, kind, c, split, echo) ==
               ELSE SubSeq(kw, 1, Len(kw) - 1) \o <<kw[Len(kw)] \o " " \o tailtxt>>
   IN [lines |-> head \o body \o <<"    y = 3", "  }", "end">>,
       fault |-> IF split THEN stmtLine + 1 ELSE stmtLine, stmt |-> stmtLine,
-      class |-> c[1], always |-> c[2], encl |-> "cond-" \o kind, split |-> split, echo |-> echo]
+      class |-> c[1], always |-> c[2], encl |-> "cond-" \o kind, split |-> split, echo |-> echo, pad |-> 0]
 
-CONSTANTS GLead, GPre, GFill
-Cases ==
+CONSTANTS GLead, GPre, GFill,
+          GFar      \* numbers of blank lines in front of the whole text (the text is `pad` empty lines, then `lines`)
+\* the same layout pushed down by n lines: "any line" includes lines beyond 2^16
+Shift(c, n) == [c EXCEPT !.fault = @ + n, !.stmt = @ + n, !.pad = n]
+Near ==
+  {Layout(0, 0, 0, e, f, FALSE, FALSE) : e \in Encl, f \in Faults}
+  \cup {CondLayout(0, 0, 0, k, c, FALSE, FALSE) : k \in {"if", "elseif", "for"}, c \in CondFaults}
+FarCases == {Shift(c, n) : c \in Near, n \in GFar}
+Cases0 ==
   {Layout(l, p, fl, e, f, sp, ec) : l \in GLead, p \in GPre, fl \in GFill, e \in Encl, f \in Faults, sp \in BOOLEAN, ec \in BOOLEAN}
   \cup {CondLayout(l, p, fl, k, c, sp, ec) : l \in GLead, p \in GPre, fl \in GFill, k \in {"if", "elseif", "for"}, c \in CondFaults,
                                             sp \in BOOLEAN, ec \in BOOLEAN}
 
+Cases == Cases0 \cup FarCases
+
 \* sanity of the layout arithmetic, checked on every case: the fault line holds the fault text
-LayoutSane == \A c \in Cases : c.fault \in DOMAIN c.lines /\ c.stmt <= c.fault /\ c.fault <= c.stmt + 1
+LayoutSane == \A c \in Cases : (c.fault - c.pad) \in DOMAIN c.lines /\ c.stmt <= c.fault /\ c.fault <= c.stmt + 1
 ASSUME LayoutSane
 ASSUME ndJsonSerialize("gen.ndjson", SetToSeq(Cases))
 VARIABLE dummy
